@@ -1,0 +1,30 @@
+//go:build verif
+// +build verif
+
+package gemmill
+
+import (
+	"github.com/dappledger/AnnChain/gemmill/blockchain"
+	"github.com/dappledger/AnnChain/gemmill/state"
+	"github.com/dappledger/AnnChain/gemmill/types"
+)
+
+// Read-only accessors and the fast-sync style block executer for the crash-recovery check (/verif C06).
+// Nothing here is compiled without the build tag "verif".
+
+// VerifState returns the live state machine (after NewAngine/ConnectApp, i.e. after RecoverFromCrash).
+func (a *Angine) VerifState() *state.State { return a.stateMachine }
+
+// VerifBlockStore returns the live block store (its Height() is the in-memory height).
+func (a *Angine) VerifBlockStore() *blockchain.BlockStore { return a.blockstore }
+
+// VerifApplyBlock validates and executes one block on the assembled state machine and application
+// exactly as the block executer installed for the blockchain reactor does (ApplyBlock + Save),
+// without storing the block.
+func (a *Angine) VerifApplyBlock(blk *types.Block, partsHeader types.PartSetHeader) error {
+	if err := a.stateMachine.ApplyBlock(*a.eventSwitch, blk, partsHeader, MockMempool{}, -1); err != nil {
+		return err
+	}
+	a.stateMachine.Save()
+	return nil
+}
